@@ -236,4 +236,58 @@ def rule_arity(ctx) -> RuleResult:
                 if ostar is not None:
                     obligation("_collapse_blocks_along_axes", cb, ev2.arity(ostar.value), ch, f"output key (*{norm(ostar.value)}) vs chunks= of the new array", st, "key-out")
     obligation("_collapse_blocks_along_axes", cb, ch, {"n": 1}, "chunks= of the reshaped array vs the dimensions of the result (the layer only moves blocks)", ctor, "chunks")
+    # (3) chunk_reduce: sibling arms of the per-reduction loop build `result` with the same leading (new) dimensions.  The normal arm reshapes to
+    # new_dims_shape + ...; the all-labels-missing arm allocates the all-fill result directly and must carry the same prefix, or a vector `q`
+    # loses its axis exactly when no requested label is present.
+    cr = prog.func("core.chunk_reduce")
+    newdims = {a.targets[0].id for a in walk_own(cr.node) if isinstance(a, ast.Assign) and len(a.targets) == 1 and isinstance(a.targets[0], ast.Name)
+               and any(isinstance(c, ast.Call) and "new_dims" in norm(c.func) for c in ast.walk(a.value))}
+    if not newdims:
+        res.notes.append("chunk_reduce no longer computes new dimensions per reduction: clause (3) not applicable")
+        return res
+    shapes = []
+    for a in walk_own(cr.node):
+        if isinstance(a, ast.Assign) and len(a.targets) == 1 and norm(a.targets[0]) == "result" and isinstance(a.value, ast.Call):
+            c = a.value
+            if norm(c.func) in ("np.full", "np.empty", "np.zeros", "np.ones") and (kwarg(c, "shape") is not None or c.args):
+                shapes.append((a, kwarg(c, "shape") or c.args[0], "allocates"))
+            elif isinstance(c.func, ast.Attribute) and c.func.attr == "reshape" and c.args:
+                shapes.append((a, c.args[0], "reshapes to"))
+    if len(shapes) < 2:
+        raise AnalysisError("chunk_reduce: the allocation arm and the reshape arm of the reduction loop were not both found (anchor)")
+    for a, sh, how in shapes:
+        ok = bool(names_in(sh) & newdims)
+        res.inst(f"chunk_reduce: '{norm(a)[:60]}' {how} a shape that starts with the new dimensions {sorted(newdims)}: {ok}", f"newdims|{how}")
+        if not ok:
+            res.report(f"core.chunk_reduce|arm-without-new-dims|{how.split()[0]}", cr.where(a), cr.qualname,
+                       f"'{norm(a)[:70]}' builds the result of a reduction without the new leading dimensions ({sorted(newdims)[0]}) that the sibling arm prepends: "
+                       "a vector quantile loses its q axis exactly when none of the requested labels is present (the eager result has one dimension less than "
+                       "the chunked one and than the same call with a label present)")
+    # (4) _squeeze_results: the intermediates of one blueprint differ in leading dimensions (the values of a vector quantile carry the new q
+    # dimensions, the min_count counter does not), so the singleton reduced axes must be addressed relative to the END of each array
+    # (through v.ndim / negative positions), never by one absolute position list applied to all of them.
+    sq = prog.funcs.get("core._squeeze_results")
+    fin = prog.func("core._finalize_results")
+    shifted = any(isinstance(c, ast.Call) and norm(c.func) == "_squeeze_results" and "num_new_vector_dims" in norm(c) for c in ast.walk(fin.node))
+    if sq is None:
+        res.notes.append("_squeeze_results is gone: clause (4) not applicable")
+        return res
+    axp = sq.params[1] if len(sq.params) > 1 else "axis"
+    for lp in walk_own(sq.node):
+        if not (isinstance(lp, ast.For) and "intermediates" in norm(lp.iter) and isinstance(lp.target, ast.Name)):
+            continue
+        v = lp.target.id
+        for x in ast.walk(lp):
+            if isinstance(x, ast.Subscript) and norm(x.value) == f"{v}.shape":
+                # where does the position come from?
+                gens = [g for g in ast.walk(lp) if isinstance(g, (ast.GeneratorExp, ast.ListComp)) and any(y is x for y in ast.walk(g))]
+                src = norm(gens[0].generators[0].iter) if gens else norm(x.slice)
+                end_relative = f"{v}.ndim" in src or src.startswith("range(-") or (isinstance(x.slice, ast.UnaryOp) and isinstance(x.slice.op, ast.USub))
+                absolute = axp in {n_.id for n_ in ast.walk(ast.parse(src, mode="eval")) if isinstance(n_, ast.Name)} and not end_relative
+                res.inst(f"_squeeze_results: positions for '{norm(x)}' come from '{src[:50]}': relative to the end of each array: {end_relative}", f"squeeze|{norm(x)}")
+                if absolute:
+                    res.report("core._squeeze_results|absolute-axes-on-mixed-ndim", sq.where(x), sq.qualname,
+                               f"'{norm(x)}' tests absolute positions taken from `{axp}` on every intermediate" + (" (shifted by agg.num_new_vector_dims in the caller)" if shifted else "")
+                               + ": the values of a vector quantile have leading q dimensions, the min_count counter does not, so the counter keeps its singleton "
+                               "axes and the fill mask is broadcast along the wrong axes (ValueError, or fills in the wrong q / batch position) when more than one axis is reduced")
     return res
